@@ -92,7 +92,7 @@ def _entry(kind, dcls, fcls, icls, form):
     return e
 
 
-def _pre(kind, d, f, i, first):
+def _pre(kind, d, f, i, first, nodir):
     if not (0 <= kind < 6 and 0 <= d < 5 and 0 <= f < 4 and 0 <= i < 4):
         return False
     fx = P.get("fixkind")
@@ -119,9 +119,9 @@ def _untraced():
     return contextlib.nullcontext()
 
 
-def h_db(kind: int, d: int, f: int, i: int, first: bool) -> bool:
+def h_db(kind: int, d: int, f: int, i: int, first: bool, nodir: bool) -> bool:
     """
-    pre: _pre(kind, d, f, i, first)
+    pre: _pre(kind, d, f, i, first, nodir)
     post: _
     """
     import codebasin
@@ -139,7 +139,12 @@ def h_db(kind: int, d: int, f: int, i: int, first: bool) -> bool:
             fc = FILE_CLASSES[k]
         if i == k:
             ic = INC_CLASSES[k]
-    fixed = {"directory": "/r", "file": "ok.c", "arguments": ["gcc", "-I", "/abs/inc", "-c", "ok.c"]}
+    # the neighbour entry has no `directory` of its own (root-relative spelling) or an explicit one: nothing computed
+    # for one entry may leak into the next
+    if nodir:
+        fixed = {"file": "ok.c", "arguments": ["gcc", "-I", "relinc", "-c", "ok.c"]}
+    else:
+        fixed = {"directory": "/r", "file": "ok.c", "arguments": ["gcc", "-I", "/abs/inc", "-c", "ok.c"]}
     e = _entry(kd, dc, fc, ic, P.get("form", "arguments"))
     db = [e, fixed] if first else [fixed, e]
     STATS["compared"] += 1
@@ -161,7 +166,7 @@ def h_db(kind: int, d: int, f: int, i: int, first: bool) -> bool:
     finally:
         codebasin.CompilationDatabase.from_file = old
     got = [(x["file"], list(x["include_paths"]), list(x["defines"])) for x in out]
-    exp_fixed = ("/r/ok.c", ["/abs/inc"], [])
+    exp_fixed = ("/r/ok.c", ["/r/relinc"] if nodir else ["/abs/inc"], [])
     exp = []
     if kd == "good":
         ef, ei = ref_paths(dc, fc, [ic])
